@@ -29,7 +29,17 @@ func (tr *FnTr) ghostArr(id *Term) *Term { return Select(tr.st.Ghost, id) }
 func (tr *FnTr) ghostLen(id *Term) *Term { return Select(tr.ghostArr(id), Int(-1)) }
 
 // ghostNew makes id an empty buffer of the given kind.
+// The kind (hash algorithm / buffer / reader) of a ghost object never changes after its
+// creation: it is an uninterpreted function of the object id, pinned where the object is made.
+func (tr *FnTr) ghostKind(id *Term) *Term {
+	tr.vc.DeclareUF("gkind", []Sort{SInt}, SInt)
+	return App("gkind", SInt, id)
+}
+
 func (tr *FnTr) ghostNew(id *Term, alg *Term) {
+	if k := tr.ghostKind(id); k.Key() != alg.Key() {
+		tr.vc.Assume(Eq(k, alg))
+	}
 	tr.st.Ghost = tr.vc.Def("ghost", Store(tr.st.Ghost, id, Store(Store(zeroArr, Int(-1), Int(0)), Int(-2), alg)))
 }
 
@@ -104,7 +114,7 @@ func (tr *FnTr) ghostWriteSlice(id *Term, p Val) {
 func (tr *FnTr) ghostSum(id *Term, x ssa.Value, prefix *Val) Val {
 	arr := tr.vc.Def("g_arr", tr.ghostArr(id))
 	ln := Select(arr, Int(-1))
-	alg := Select(arr, Int(-2))
+	alg := tr.ghostKind(id)
 	tr.vc.DeclareUF("digest", []Sort{SInt, SArr, SInt, SInt}, SInt)
 	// size by algorithm
 	size := tr.vc.Fresh("dg_size", SInt)
@@ -233,7 +243,8 @@ func (tr *FnTr) ghostInvoke(x *ssa.Call, cc *ssa.CallCommon) (Val, bool) {
 		return tr.ghostSum(id, x, &args[0]), true
 	case "Reset":
 		arr := tr.ghostArr(id)
-		tr.ghostNew(id, Select(arr, Int(-2)))
+		_ = arr
+		tr.ghostNew(id, tr.ghostKind(id))
 		return Val{}, true
 	case "Size", "BlockSize":
 		v := tr.freshVal(tr.vname(x), x.Type(), nil)
